@@ -751,6 +751,37 @@ def scan_assumptions(gen_text, unit_id):
     return res
 
 
+CALLEES_FILE = os.path.join(CONTRACTS, '_callees.json')
+
+
+def callees_of(gen):
+    """for every function defined in the generated file: the functions defined in the same file that its body calls
+    (by name; `g(`, `.g(`, `::g(`).  Recorded for the unchanged tree in contracts/_callees.json (vx/mkcallees.py): the
+    proof that was accepted is a modular proof against the contracts of exactly these callees."""
+    msk = inl.mask(gen)
+    spans = inl.fn_spans(gen, msk)
+    names = set(n for n, _, _, _, _ in spans)
+    out = {}
+    for name, s0, k, e, ind in spans:
+        body = msk[k:e]
+        called = set(m.group(1) for m in re.finditer(r'\b([A-Za-z_][A-Za-z0-9_]*)\s*(?:::<[^>()]*>)?\s*\(', body))
+        out.setdefault(name, set()).update((called & names) - {name})
+    return {k: sorted(v) for k, v in out.items()}
+
+
+def new_callees(uid, gen, fn):
+    """callees of `fn` in this tree that the recorded proof did not know (None if nothing is recorded for the unit)"""
+    try:
+        base = json.load(open(CALLEES_FILE)).get(uid)
+    except Exception:
+        base = None
+    if base is None:
+        return None
+    fn = fn.split('::')[-1]
+    now = set(callees_of(gen).get(fn, []))
+    return sorted(now - set(base.get(fn, [])))
+
+
 def run_unit(uid, tier='quick', repo=REPO, keep=None, seed=0):
     """generate + verify one unit; returns a result dict"""
     t0 = time.time()
@@ -820,6 +851,33 @@ def run_unit(uid, tier='quick', repo=REPO, keep=None, seed=0):
         # replay search for failed clauses
         if r['status'] == 'violation' and u.has_replay:
             r['replay'] = run_replay(u, gen_path, scratch, list(an['failed'].keys()) + [p['id'] for p in an['panic']], seed)
+        if r['status'] == 'violation' and os.environ.get('VX_SCAFFOLD_POLICY', 'undecided') == 'undecided':
+            # modular verification: a function that now calls a function the accepted proof did not know (a helper that
+            # was extracted, for example - it has no contract in this unit) cannot be judged against its own contract;
+            # failing clauses of such a function are not evidence of a violation.  Undecided, never an alarm.
+            found_input = any((v or {}).get('found') for v in (r.get('replay') or {}).values() if isinstance(v, dict))
+            unknown = {}
+            for cid in list(an['failed'].keys()):
+                c_ = u.clauses.get(cid)
+                nc = new_callees(uid, gen, c_.fn) if c_ is not None and c_.fn else None
+                if nc:
+                    unknown[cid] = nc
+            for p_ in an['panic'] + an['termination']:
+                nc = new_callees(uid, gen, p_.get('fn') or '') if p_.get('fn') else None
+                if nc:
+                    unknown[p_['id']] = nc
+            if unknown and not found_input:
+                r['failed'] = {k: v for k, v in r['failed'].items() if k not in unknown}
+                r['panic'] = [p_ for p_ in r['panic'] if p_['id'] not in unknown]
+                r['termination'] = [p_ for p_ in r['termination'] if p_['id'] not in unknown]
+                an = dict(an, failed=r['failed'], panic=r['panic'], termination=r['termination'])
+                r['downgraded_unknown_callees'] = unknown
+                notes = notes + ['modular proof not applicable: %s now call(s) %s, which the recorded proof does not know (no contract in this unit); obligations not judged: %s'
+                                 % (', '.join(sorted(set(u.clauses[c].fn for c in unknown if c in u.clauses))) or 'a function under contract',
+                                    ', '.join(sorted(set(x for v in unknown.values() for x in v))), ', '.join(sorted(unknown)))]
+                r['notes'] = notes
+                if not (r['failed'] or r['panic'] or r['termination']):
+                    r['status'] = 'undecided'
         if r['status'] == 'violation' and scaffolding_lost and os.environ.get('VX_SCAFFOLD_POLICY', 'undecided') == 'undecided':
             found = any((v or {}).get('found') for v in (r.get('replay') or {}).values() if isinstance(v, dict))
             if not found:
